@@ -14,6 +14,12 @@ SRV = "aiohttp/web_server.py"
 PROTO = "aiohttp/web_protocol.py"
 
 
+def _timeout_scope(e) -> bool:
+    """`ceil_timeout(timeout[, threshold])` / `async_timeout.timeout(timeout)`: a scope bounded by the `timeout` parameter (the rounding threshold
+    of ceil_timeout only moves the deadline by less than a second and is not part of the obligation)."""
+    return isinstance(e, ast.Call) and norm.raw(e.func) in ("ceil_timeout", "async_timeout.timeout", "asyncio.timeout") and bool(e.args) and norm.raw(e.args[0]) == "timeout"
+
+
 def run(chk):
     repo = chk.repo
     chk.explanation = (
@@ -186,7 +192,7 @@ def run(chk):
                           "with sub-applications the contexts are exited by the cleanup signal's receivers in registration order - the parent's own contexts first, then each sub-application's: the teardown of a sub-application's context (started last) finds the parent's resources (started first, e.g. the db pool) already closed; the failed-startup path exits the same contexts in true reverse order, so the two paths disagree")
     sh = repo.func(PROTO, "RequestHandler.shutdown")
     gs = cfg_of(sh.node)
-    tos = [w for w in ast.walk(sh.node) if isinstance(w, ast.AsyncWith) and any(norm.raw(it.context_expr) == "ceil_timeout(timeout)" for it in w.items)]
+    tos = [w for w in ast.walk(sh.node) if isinstance(w, ast.AsyncWith) and any(_timeout_scope(it.context_expr) for it in w.items)]
     aws = prog.awaits_in(sh.node)
     scoped = [a for a in aws if any(any(x is w for x in prog.enclosing(a, (ast.AsyncWith,))) for w in tos)]
     # the close wait (for connection_lost after a graceful close: buffered response, TLS close_notify): bounded by the same timeout, and not
@@ -315,15 +321,25 @@ def hunt4_rules(chk, repo):
         for c in [c for c in prog.calls_in(rh.methods[mname].node) if norm.raw(c.func) in ("self.transport.close", "transport.close")]:
             nclose += 1
             recv = norm.raw(c.func.value)
-            if any((not l.pos and l.text == f"{recv}.is_closing()") for l in PC.units(PC.pc(K.stmt_of(c), raw=True))):
+            units_ = list(PC.units(PC.pc(K.stmt_of(c), raw=True)))
+            fdefs = norm.fn_defs(rh.methods[mname].node)
+            def one_shot(l):
+                # `idle = not self._waiter.done()` ... self._waiter.cancel() ... if idle: close(): the branch is taken at most once per waiter
+                if not l.pos or not l.text.isidentifier():
+                    return False
+                vals = [v for _d, v in fdefs.defs.get(l.text, []) if v is not None]
+                return len(vals) == 1 and norm.raw(vals[0]) == "not self._waiter.done()" and M.contains(rh.methods[mname].node, "self._waiter.cancel()")
+            if any((not l.pos and l.text == f"{recv}.is_closing()") for l in units_):
                 chk.ok("C20.closeonce", c, f"RequestHandler.{mname}(), run by shutdown() after pre_shutdown() may have closed the connection: close() only when the transport is not closing yet")
+            elif any(one_shot(l) for l in units_):
+                chk.ok("C20.closeonce", c, f"RequestHandler.{mname}(): the transport is closed only while the waiter that the same call cancels was still pending - a second call finds it done")
             else:
                 chk.violation("C20.closeonce", c, K.short(c), f"if not {recv}.is_closing(): {recv}.close()",
                               f"RequestHandler.{mname}() closes a transport that close() (pre_shutdown, idle connection) has closed already: the second close() detaches asyncio's TLS transport, the next transport call in shutdown() raises AttributeError out of Server.shutdown()'s gather - the other connections' drains are abandoned and cleanup() fails; a later abort() does nothing")
     chk.expect_count("C20.closeonce", nclose, 1, "transport.close() calls in what RequestHandler.shutdown() runs")
     # ---- C20.flush: the close wait covers every gracefully closed connection, also one whose transport attribute is gone ---------------------------
     waits = [a for a in prog.awaits_in(sh.node) if isinstance(a.value, ast.Call) and norm.raw(a.value.func) in ("asyncio.wait", "asyncio.wait_for") and not any(
-        any(norm.raw(it.context_expr) == "ceil_timeout(timeout)" for it in w.items) for w in prog.enclosing(a, (ast.AsyncWith,)))]
+        any(_timeout_scope(it.context_expr) for it in w.items) for w in prog.enclosing(a, (ast.AsyncWith,)))]
     if not waits:
         chk.analysis_error("C20.flush: the wait for connection_lost() at the end of RequestHandler.shutdown() was not found")
     else:
